@@ -157,7 +157,25 @@ func (c *fnCtx) havocSet(ms *ModSet) {
 		c.registerKeyFromName(k)
 		c.havocKey(k)
 	}
-	if ms.Alloc {
+	// keys written only on objects allocated inside the region: objects that existed before keep their contents
+	var fkeys []string
+	for k := range ms.Fresh {
+		if !ms.Keys[k] {
+			fkeys = append(fkeys, k)
+		}
+	}
+	sort.Strings(fkeys)
+	if len(fkeys) > 0 {
+		wm := c.heapGet("$wm")
+		for _, k := range fkeys {
+			c.registerKeyFromName(k)
+			old := c.heapGet(k)
+			c.havocKey(k)
+			nw := c.heapGet(k)
+			c.em.assert(fmt.Sprintf("(forall ((r Int)) (! (=> (<= (owner r) %s) (= (select %s r) (select %s r))) :pattern ((select %s r))))", wm, nw, old, nw))
+		}
+	}
+	if ms.Alloc || len(fkeys) > 0 {
 		c.havocKey("$wm")
 	}
 }
@@ -563,23 +581,38 @@ func (c *fnCtx) typeInv(t types.Type, v *Val) {
 	case KInt:
 		if b, ok := t.Underlying().(*types.Basic); ok {
 			if lo, hi, ok := intRange(b); ok && strings.ContainsAny(v.T[0], "_") {
-				c.em.assert(fmt.Sprintf("(and (<= %s %s) (<= %s %s))", neg(lo), v.T[0], v.T[0], hi))
+				c.assertHere(fmt.Sprintf("(and (<= %s %s) (<= %s %s))", neg(lo), v.T[0], v.T[0], hi))
 			}
 		}
 	case KStr:
-		c.em.assert("(<= 0 " + v.T[1] + ")")
+		c.assertHere("(<= 0 " + v.T[1] + ")")
 	case KSlice:
-		c.em.assert(fmt.Sprintf("(and (<= 0 %s) (<= 0 %s) (<= %s %s) (<= (+ %s %s) %s) (=> (= %s 0) (= %s 0)) (<= (owner %s) %s))",
+		c.assertHere(fmt.Sprintf("(and (<= 0 %s) (<= 0 %s) (<= %s %s) (<= (+ %s %s) %s) (=> (= %s 0) (= %s 0)) (<= (owner %s) %s))",
 			v.T[1], v.T[2], v.T[2], v.T[3], v.T[1], v.T[3], maxLen, v.T[0], v.T[3], v.T[0], c.heapGet("$wm")))
 		// arrays are typed: a []T and a []U with different element types never share backing memory
 		if sl, ok := t.Underlying().(*types.Slice); ok {
-			c.em.assert(fmt.Sprintf("(=> (not (= %s 0)) (= (atype %s) %d))", v.T[0], v.T[0], c.eng.elemTypeID(sl.Elem())))
+			c.assertHere(fmt.Sprintf("(=> (not (= %s 0)) (= (atype %s) %d))", v.T[0], v.T[0], c.eng.elemTypeID(sl.Elem())))
 		}
 	case KPtr:
-		c.em.assert("(<= (owner " + v.T[0] + ") " + c.heapGet("$wm") + ")")
+		c.assertHere("(<= (owner " + v.T[0] + ") " + c.heapGet("$wm") + ")")
 	case KIface:
-		c.em.assert(fmt.Sprintf("(and (>= %s 0) (<= (owner %s) %s))", v.T[0], v.T[1], c.heapGet("$wm")))
+		c.assertHere(fmt.Sprintf("(and (>= %s 0) (<= (owner %s) %s))", v.T[0], v.T[1], c.heapGet("$wm")))
 	}
+}
+
+// assertHere states a fact that is only meaningful on paths through the current block (type invariants of
+// values computed or loaded there): it is guarded by the block's reachability so that it can never make a
+// different path infeasible.
+func (c *fnCtx) assertHere(f string) {
+	g := ""
+	if c.reach != nil && c.curB != nil {
+		g = c.reach[c.curB]
+	}
+	if g == "" || g == "true" {
+		c.em.assert(f)
+		return
+	}
+	c.em.assert("(=> " + g + " " + f + ")")
 }
 
 // freshVal creates an unconstrained value of type t satisfying its type invariant.
